@@ -56,10 +56,11 @@ package plot
 //@   ghost released int
 //@   at call Sub x*: assume [attack-shorter-than-292-years] MinInt64 <= arg0 - arg1 && arg0 - arg1 <= MaxInt64
 //@   before call add: assert [released-in-sequence-order] p.seq == ls.seq && ls.seq == old(ls.seq) + released ;
-//@        assert [x-is-ms-since-first-request] arg1 == (p.t - ls.began) / 1000000 && arg2 == p.v
+//@        assert [x-is-ms-since-first-request] arg1 == (p.t - ls.began) / 1000000 && arg2 == p.v ;
+//@        assert [y-is-the-latency-in-ms] p.seq == r.Seq ==> arg2 == dur_seconds(r.Latency) * 1000.0
 //@   at call add: ghost released = released + 1
 //@   ensures [out-of-order-result-is-buffered] r.Seq != old(ls.seq) ==> err == nil && ls.seq == old(ls.seq) && released == 0 && has(ls.buf, r.Seq)
-//@              && ls.buf[r.Seq].t == r.Timestamp && ls.buf[r.Seq].seq == r.Seq
+//@              && ls.buf[r.Seq].t == r.Timestamp && ls.buf[r.Seq].seq == r.Seq && ls.buf[r.Seq].v == dur_seconds(r.Latency) * 1000.0
 //@   ensures [released-run-is-contiguous] err == nil ==> ls.seq == old(ls.seq) + released
 //@   ensures [nothing-lost-nothing-duplicated] err == nil ==> (forall s int :: has(ls.buf, s) == ((old(has(ls.buf, s)) || s == r.Seq) && !(old(ls.seq) <= s && s < ls.seq)))
 //@   ensures [released-as-far-as-possible] err == nil ==> !has(ls.buf, ls.seq)
@@ -67,6 +68,7 @@ package plot
 //@   loop 1
 //@     invariant ls == old(ls) && ls.buf == old(ls.buf) && ls.buf != nil && ls.seq == old(ls.seq) + released && released >= 0 && r.Seq == old(ls.seq)
 //@     invariant released + len(ls.buf) <= old(len(ls.buf)) + 1
+//@     invariant has(ls.buf, r.Seq) ==> ls.buf[r.Seq].v == dur_seconds(r.Latency) * 1000.0
 //@     invariant forall s int :: has(ls.buf, s) == ((old(has(ls.buf, s)) || s == r.Seq) && !(old(ls.seq) <= s && s < ls.seq))
 //@     invariant forall s int :: has(ls.buf, s) ==> ls.buf[s].seq == s && ls.buf[s].ts != nil && ls.buf[s].ts.data != nil && ls.buf[s].t >= ls.began
 //@     invariant TSINV() && (forall l string :: has(ls.series, l) ==> ls.series[l] != nil && ists(ls.series[l])) && (forall s int :: has(ls.buf, s) ==> ists(ls.buf[s].ts)) && (forall t *plot.timeSeries :: old(ists(t)) ==> ists(t))
